@@ -52,7 +52,10 @@ LONS = [(-180, 0), (-170, 0), (-175, 0), (-249, 1), (0, 0), (20, 0), (200, 1), (
 ALTS = [None, None, (-10, 0), (0, 0), (5, 0), (50, 1), (8848, 0)]
 T0 = 1704067200 * 10 ** 9          # 2024-01-01T00:00:00Z
 INSTANTS = [T0, T0 + 1, T0 - 1, T0 + 36000 * 10 ** 9 + 123456789, T0 + 86400 * 10 ** 9, T0 + 3600 * 10 ** 9,
-            T0 - 86400 * 10 ** 9 + 999999999, T0 + 45296 * 10 ** 9 + 500000000]
+            T0 - 86400 * 10 ** 9 + 999999999, T0 + 45296 * 10 ** 9 + 500000000,
+            # next to the epoch, with a fraction: written with the OFFSETS below, civil date and instant lie on different
+            # sides of 1970-01-01T00:00Z (1969-12-31T23:00:00.5Z = 1970-01-01T00:00:00.5+01:00; repaired finding F17)
+            -3600 * 10 ** 9 + 500000000, -3600 * 10 ** 9 + 400000000, 1800 * 10 ** 9 + 500000000]
 OFFSETS = [0, 0, 7200, -18000, 19800, 20700, -34200, 50400, -43200, 3600]
 
 
